@@ -216,6 +216,9 @@ where
     /// Returns [Err] if the stream fails to close gracefully.
     pub async fn finish(mut self) -> Result<()> {
         self.flush_batch()?;
+        // Frames accepted so far (including the batch framed just above) may still sit in the
+        // framed writer's buffer; finishing the QUIC stream alone would discard them.
+        self.stream.flush().await?;
         self.stream.finish().await
     }
 
